@@ -1,4 +1,5 @@
 import Dhlldv.Lemmas.Basic
+import Dhlldv.Lemmas.WilsonMono
 import Dhlldv.Gen.WilsonV50
 import Mathlib.Tactic.Positivity
 import Mathlib.Tactic.FieldSimp
@@ -129,6 +130,13 @@ theorem C20_V50_Erhg_antitone (v1 v2 : ℝ) (hv1 : 0 < v1) (hv : v1 ≤ v2) (hm 
   have hm2 : 0 ≤ musf / 2 := by positivity
   exact mul_le_mul_of_nonneg_left this hm2
 
+/-- on E the hypothesis of `C20_V50_Erhg_antitone` holds: V50 is non-negative whatever the friction-factor iteration does, so the V50-model
+excess gradient does not rise with line speed for any physical grading -/
+theorem C20_V50_Erhg_antitone_on_E (v1 v2 : ℝ) (hv1 : 0 < v1) (hv : v1 ≤ v2) (hm : 0 ≤ musf)
+    (hd : 0 < d50) (hn : 0 < nu) (hl : 0 < rhol) (hs : rhol < rhos) :
+    wilson_v50.Erhg v2 Dp d50 d85 eps nu rhol rhos musf ≤ wilson_v50.Erhg v1 Dp d50 d85 eps nu rhol rhos musf :=
+  C20_V50_Erhg_antitone Dp d50 d85 eps nu rhol rhos musf v1 v2 hv1 hv hm (V50_nonneg 1000 Dp d50 d85 eps nu rhol rhos hd hn hl hs)
+
 /-- both Wilson gradients exceed the water gradient whenever their excess gradient is positive -/
 theorem C20_heads_exceed_water (vls d Cv Cvb : ℝ) (hR : rhol < rhos) (hl : 0 < rhol) (hC : 0 < Cv) :
     (0 < wilson_stratified.Erhg vls Dp d eps nu rhol rhos musf Cv Cvb →
@@ -149,6 +157,13 @@ theorem C20_heads_exceed_water (vls d Cv Cvb : ℝ) (hR : rhol < rhos) (hl : 0 <
     linarith
 
 end v50
+
+/-- the Wilson stratified excess gradient does not rise with line speed on E (the friction-limited deposit velocity divided by the line speed
+falls because L(v)^0.26 / v does — friction lemma shared with C04) -/
+theorem C20_stratified_Erhg_antitone {v1 v2 Dp d eps nu rhol rhos Cv : ℝ} (musf Cvb : ℝ)
+    (h1 : InE v1 Dp d eps nu rhol rhos Cv) (h2 : InE v2 Dp d eps nu rhol rhos Cv) (h12 : v1 < v2) (hm : 0 < musf) :
+    wilson_stratified.Erhg v2 Dp d eps nu rhol rhos musf Cv Cvb ≤ wilson_stratified.Erhg v1 Dp d eps nu rhol rhos musf Cv Cvb :=
+  wilson_stratified_Erhg_antitone musf Cvb h1 h2 h12 hm
 
 /-! Non-vacuity: the hypotheses of `C20_Vsm_at_reported_max` / `C20_Vsm_nonneg` are met by a concrete sand. -/
 example : (0:ℝ) < 0.5 ∧ (0:ℝ) < 0.001 ∧ (0:ℝ) < 1.0 ∧ (1.0:ℝ) < 2.65 ∧ (0:ℝ) < 0.4 ∧ (0:ℝ) ≤ 0.012 ∧ (0:ℝ) ≤ 0.2 / 0.6 ∧ (0.2:ℝ) / 0.6 ≤ 1 := by
